@@ -17,6 +17,12 @@ def main():
     except ModuleNotFoundError as e:
         print('no driver for', pid, e)
         return 2
+    if a.selftest:
+        # detection self-test: the mutant catalogue and the seeded changes of this property, each in the scratch worktree
+        import subprocess
+        out = subprocess.run([os.path.join(core.ROOT, 'tools', 'run_mutants.sh'), pid], stdout=subprocess.PIPE, text=True).stdout
+        print(out, end='')
+        return 1 if ('MISSED' in out) else 0
     ctx = core.Ctx(pid, a.tier, seed)
     ctx.only = set(a.only.split(',')) if a.only else None
     try:
